@@ -5,6 +5,7 @@ package main
 
 import (
 	"fmt"
+	"go/ast"
 	"go/types"
 	"strconv"
 	"strings"
@@ -94,7 +95,7 @@ func (env *SpecEnv) wfRead(t *Term, gt types.Type) {
 		return
 	}
 	if f := env.x.wf(env.st, t, gt); f != True {
-		env.x.facts = append(env.x.facts, f)
+		env.x.facts = append(env.x.facts, Implies(env.st.pc, f))
 	}
 }
 
@@ -171,8 +172,16 @@ func (env *SpecEnv) eval(e *Expr) SVal {
 			n = n.bind(v.Name, SVal{T: bv})
 		}
 		body := n.boolean(e.Args[0])
+		var pats [][]*Term
+		for _, p := range e.Pats {
+			var ts []*Term
+			for _, pe := range p {
+				ts = append(ts, n.eval(pe).T)
+			}
+			pats = append(pats, ts)
+		}
 		if e.Name == "forall" {
-			return SVal{T: Forall(bound, nil, body)}
+			return SVal{T: Forall(bound, pats, body)}
 		}
 		return SVal{T: Exists(bound, body)}
 	case "set":
@@ -311,6 +320,29 @@ func (env *SpecEnv) localVar(name string) (SVal, bool) {
 			}
 		}
 	}
+	// source-level identifiers through debug references (ssa.GlobalDebug)
+	var cand ssa.Value
+	nc := 0
+	for _, b := range fr.fn.Blocks {
+		for _, ins := range b.Instrs {
+			if d, ok := ins.(*ssa.DebugRef); ok && !d.IsAddr {
+				if id, ok := d.Expr.(*ast.Ident); ok && id.Name == name {
+					if _, isPhi := d.X.(*ssa.Phi); isPhi {
+						continue
+					}
+					if cand != d.X {
+						if _, have := fr.regs[d.X]; have || isConstLike(d.X) {
+							cand = d.X
+							nc++
+						}
+					}
+				}
+			}
+		}
+	}
+	if nc == 1 {
+		return env.fromValue(env.x.get(fr, env.st, cand), cand.Type()), true
+	}
 	for _, b := range fr.fn.Blocks {
 		for _, ins := range b.Instrs {
 			switch ins := ins.(type) {
@@ -331,6 +363,14 @@ func (env *SpecEnv) localVar(name string) (SVal, bool) {
 		}
 	}
 	return SVal{}, false
+}
+
+func isConstLike(v ssa.Value) bool {
+	switch v.(type) {
+	case *ssa.Const, *ssa.Function, *ssa.Global:
+		return true
+	}
+	return false
 }
 
 func (env *SpecEnv) fromValue(v Value, t types.Type) SVal {
